@@ -719,7 +719,7 @@ bool TimeZoneInfo::Load(ZoneInfoSource* zip) {
   // Determine the before-first-transition type.
   default_transition_type_ = 0;
   if (seen_type_0 && hdr.timecnt != 0) {
-    std::uint_fast8_t index = 0;
+    std::size_t index = 0;  // not 8-bit: typecnt may exceed 256
     if (transition_types_[0].is_dst) {
       index = transitions_[0].type_index;
       while (index != 0 && transition_types_[index].is_dst)
@@ -727,8 +727,8 @@ bool TimeZoneInfo::Load(ZoneInfoSource* zip) {
     }
     while (index != hdr.typecnt && transition_types_[index].is_dst)
       ++index;
-    if (index != hdr.typecnt)
-      default_transition_type_ = index;
+    if (index != hdr.typecnt && index <= 255)
+      default_transition_type_ = static_cast<std::uint_fast8_t>(index);
   }
 
   // Copy all the abbreviations.
